@@ -477,12 +477,24 @@ func (g *commonGen) fill(w *World, kind string, b int) Step {
 		st.RM = c.hasModule("remember") && g.r.Chance(1, 3)
 		g.redir(&st)
 		delete(st.Str, "redir_in")
+		if st.Str["redir"] != "" && g.r.Chance(1, 4) {
+			// the parameter repeated: a benign and a hostile value in either order
+			other := "/welcome"
+			if g.p.RedirGen != nil && g.r.Bool() {
+				other = g.p.RedirGen(g.r)
+			}
+			if g.r.Bool() {
+				st.Str["redir"], st.Str["redir2"] = other, st.Str["redir"]
+			} else {
+				st.Str["redir2"] = other
+			}
+		}
 	case "oauth2_callback":
 		prov := c.Providers[g.r.Intn(len(c.Providers))]
 		st.A = g.r.Intn(3)
 		st.Str = map[string]string{"provider": prov, "code": "fresh"}
 		st.Sec = g.secretFor(w, kind, st.A, b)
-		switch g.r.Intn(12) {
+		switch g.r.Intn(10) {
 		case 0:
 			st.Str["error"] = "access_denied"
 		case 1:
@@ -492,7 +504,7 @@ func (g *commonGen) fill(w *World, kind string, b int) Step {
 		case 3:
 			st.Str["nostate"] = "1"
 		case 4:
-			st.Str["uid"] = []string{"a;;b", ";;", "oauth2;;google;;7", "x;y", "üñí", "7"}[g.r.Intn(6)]
+			st.Str["uid"] = []string{"a;;b", "a;b", ";;", ";", "oauth2;;google;;7", "x;y", "x;;y", "üñí", "7"}[g.r.Intn(9)]
 		case 5: // state of another browser
 			ob := g.r.Intn(len(w.Browsers))
 			st.Sec = &SecretRef{Kind: "literal", Lit: w.Browsers[ob].Session["oauth2_state"]}
